@@ -344,14 +344,14 @@ FrValAssignments(c, nd, Pairwise) ==
 \* the value classes are explored in the dimensionalities ValNDims (all of the call's where it has none of them)
 FrValNd(c, ValNDims) == IF c.ndims \cap ValNDims # {} THEN c.ndims \cap ValNDims ELSE c.ndims
 \* ---- exotic element kinds: one parameter in an exotic kind (ordinary - inexact - values), the others in base layout;
-\* quick: native contiguous and swapped strided, thorough: every order x contiguity
+\* quick: native contiguous (any exotic kind has to be converted by the callee), thorough: every order x contiguity
 FrExoOneOff(c, nd, OG) ==
     UNION {UNION {{[lay |-> [i \in DOMAIN c.params |-> IF i = q THEN [order |-> IF FrHasOrder(k) THEN og[1] ELSE "native", contig |-> og[2], kind |-> k]
                                                        ELSE FrBase(c.params[i])],
                     val |-> FrAllOrd(c), size |-> FrAllSmall(c)]
                    : og \in OG} : k \in FrXKinds(c.params[q])} : q \in DOMAIN c.params}
 FrExoAssignments(c, nd, Pairwise) ==
-    FrExoOneOff(c, nd, IF Pairwise THEN FrOG(nd) ELSE {<<"native", "c">>, <<"swapped", "strided">>})
+    FrExoOneOff(c, nd, IF Pairwise THEN FrOG(nd) ELSE {<<"native", "c">>})
 
 \* ---- large arguments (1-d, options of c.big): all parameters large, or one large and the others small (for an entry point
 \* that wants one size that is a deliberate rejection), in the order/contiguity shapes LG, with ordinary values and - all large -
@@ -380,7 +380,9 @@ FrExpectReject(c, opt, val, size) ==
     \/ c.samesize /\ (c.fam = "cosmo" => opt \in {"array_array", "array_array_curved"}) /\ \E i, j \in DOMAIN c.params : FrCount(val[i], size[i]) # FrCount(val[j], size[j])
 
 FrAssignments(c, nd, opt, Pairwise, ValNDims) ==
-    {[lay |-> l, val |-> FrAllOrd(c), size |-> FrAllSmall(c)] : l \in FrLayAssignments(c, nd, Pairwise)} \cup
+    \* (quick: an option that ends in a documented rejection whatever the data is run in the uniform layouts only)
+    {[lay |-> l, val |-> FrAllOrd(c), size |-> FrAllSmall(c)]
+     : l \in IF opt \in c.rejopts /\ ~Pairwise THEN FrUniform(c, nd) ELSE FrLayAssignments(c, nd, Pairwise)} \cup
     (IF nd \in FrValNd(c, ValNDims) THEN FrValAssignments(c, nd, Pairwise) \cup FrExoAssignments(c, nd, Pairwise) ELSE {}) \cup
     FrLargeAssignments(c, nd, opt, Pairwise)
 
